@@ -5,7 +5,7 @@
 Require Import ExtrOcamlBasic ExtrOCamlFloats.
 Require Import IVP.model.Lit IVP.model.Ops IVP.model.FloatOps IVP.model.Common IVP.model.SolOut
                IVP.model.Solve IVP.model.Matrix IVP.model.LU IVP.model.LUc IVP.model.LUcShape IVP.model.PyLayout.
-Extraction "extract/model.ml" Fops solve_ivp run_method interp_fn sol_eval t_span
+Extraction "extract/model.ml" Fops solve_ivp run_method interp_fn sol_eval sol_many t_span
   Matrix.get Matrix.set Matrix.identity Matrix.from_vec Matrix.from_storage Matrix.full Matrix.zeros
   Matrix.square Matrix.banded Matrix.diagonal Matrix.lower_triangular Matrix.upper_triangular
   Matrix.addsub Matrix.caddsub Matrix.cmul Matrix.cmul_mut Matrix.is_identity
